@@ -51,7 +51,9 @@ def setup_worker(tier, seed):
 
 USER_ARG_TARGETS = ["pq_arrow_types_mapper", "pq_arrow_kwargs", "pq_fsspec_kwargs", "csv_kwargs", "map_partitions_args", "from_map_args", "apply_args", "groupby_apply_args",
                     "isin_list", "replace_dict", "fillna_dict", "rename_dict", "astype_dict", "map_dict", "assign_user_series", "merge_user_frame", "clip_bounds", "from_dict", "loc_list",
-                    "where_user_frame", "set_index_divisions_list", "repartition_divisions_list", "drop_list", "agg_spec_dict", "query_local_dict", "from_array"]
+                    "where_user_frame", "set_index_divisions_list", "repartition_divisions_list", "drop_list", "agg_spec_dict", "query_local_dict", "from_array",
+                    # carried intermediates of cumulative / overlapping operations over one-row and empty partitions, shared by several consumers
+                    "cumsum_one_row", "cummax_one_row", "cumprod_series_one_row", "cumsum_shared_consumers", "ffill_one_row", "rolling_one_row", "shift_one_row", "diff_empty_partition"]
 
 
 def _tbl(n=24):
@@ -160,6 +162,23 @@ def user_arg_targets(scratch):
     out["drop_list"] = simple(lambda x, l: x.drop(columns=l), lambda: ["s", "c"])
     out["agg_spec_dict"] = simple(lambda x, d: x.groupby("a").agg(d), lambda: {"b": ["sum", "max"], "rid": "min"})
     out["query_local_dict"] = simple(lambda x, d: x.query("a > @thr", local_dict=d), lambda: {"thr": 2})
+    def cuts(fn, cutv=(3, 4, 7), cols=("b", "c", "rid")):
+        def build():
+            from vmon import layouts
+
+            p = pdf[list(cols)].iloc[:10].copy()
+            x = layouts.build(p, {"kind": "cuts", "cuts": list(cutv), "via": "from_map", "divisions": "unknown"})
+            return fn(x), [p]
+        return build
+
+    out["cumsum_one_row"] = cuts(lambda x: x.cumsum())
+    out["cummax_one_row"] = cuts(lambda x: x.cummax())
+    out["cumprod_series_one_row"] = cuts(lambda x: (x.b + 1).cumprod())
+    out["cumsum_shared_consumers"] = cuts(lambda x: (lambda c: c.assign(t=c.b + c.rid, u=c.b * 2))(x.cumsum()))
+    out["ffill_one_row"] = cuts(lambda x: x.ffill())
+    out["rolling_one_row"] = cuts(lambda x: x.rolling(2, min_periods=1).sum(), cutv=(3, 5, 7))
+    out["shift_one_row"] = cuts(lambda x: x.shift(1), cutv=(2, 4, 7))
+    out["diff_empty_partition"] = cuts(lambda x: x.diff(1), cutv=(3, 3, 7))
     out["from_array"] = lambda: (lambda arr: (dx.from_array(arr, chunksize=5, columns=["p", "q"]), [arr]))(np.arange(24.0).reshape(12, 2))
     return out
 
